@@ -2,7 +2,8 @@
 From Coq Require Import List ZArith Bool.
 From Pico Require Import Base.Res Base.Mach Wire.Wire Schema.Types Schema.Scalar Ref.Ref
   Schema.ScalarProofs Enc.Enc Enc.EncProofs Wire.VarintProofs Wire.WireProofs
-  Schema.Gen Schema.Interp Schema.EncSpec Schema.EncProgProofs Schema.TEnc.
+  Schema.Gen Schema.Interp Schema.EncSpec Schema.EncProgProofs Schema.TEnc Dec.SafetyProofs.
+From Pico Require Schema.Norm Schema.TDec Schema.RoundTrip.
 Import ListNotations.
 Open Scope Z_scope.
 
@@ -42,10 +43,18 @@ Theorem C01_total : forall fuel progs idx m buf, msg_ok fuel progs idx m = true 
   enc_msg fuel progs idx m buf = Ok (buf ++ fst (sp_msg fuel progs idx m), snd (sp_msg fuel progs idx m)).
 Proof. exact enc_msg_spec. Qed.
 
-(* PARTIAL. What remains of C01 is a statement about the specification alone:
-     ref_decode s i (ref_encode s i m) zero = Some (norm m)     (spec-level round trip)
-   It is not proved; ref_encode/ref_decode are validated against protobuf-go (dynamicpb) on every
-   run, and ref_decode is evaluated on the bytes of every generated message. See DESIGN.md C01. *)
+(* the bytes carry exactly the message's values: the reference decoder reads the reference encoding (= Marshal's
+   output, by the theorem above) back as the message (normal form of Schema/Norm.v), at every budget above the length *)
+Theorem C01_reference_reads_the_values : forall s g idx fs un m, RoundTrip.rt_applies s = true -> nth_error s idx = Some m ->
+  RoundTrip.rt_ok g s idx fs un = true ->
+  bytes_ok (ref_encode g s idx fs un) /\
+  forall G, (length (ref_encode g s idx fs un) < G)%nat ->
+    ref_decode G s idx (ref_encode g s idx fs un) (zero_fields s m, []) = Some (Norm.norm_fields g s idx fs, un).
+Proof. exact RoundTrip.ref_round_trip. Qed.
+
+(* What remains outside the theorems: that the reference specification (Ref.v) is the protobuf wire format -
+   ref_encode/ref_decode are compared with protobuf-go (dynamicpb) on every generated message on every run - and
+   that the model is the code (correspondence). See DESIGN.md section 0. *)
 
 Example C01_nonvacuous : enc_single KSfixed64 false 10 (VInt 3) [] = [81; 3; 0; 0; 0; 0; 0; 0; 0] /\
   enc_single KDouble false 12 (VInt 9223372036854775808) [] = [97; 0; 0; 0; 0; 0; 0; 0; 128].
@@ -56,3 +65,4 @@ Print Assumptions C01_varint_readable.
 Print Assumptions C01_framing.
 Print Assumptions C01_marshal_is_reference_encoding.
 Print Assumptions C01_total.
+Print Assumptions C01_reference_reads_the_values.
